@@ -71,9 +71,49 @@ type c21Case struct {
 	UMax   int16  `json:"user_max"`   // c21None: no MaxVersions option (pre mode: plain V0_9_0); c21Missing: MaxVersions without K
 	PinMin int16  `json:"pin_min"`    // c21None: no min pin
 	PinMax int16  `json:"pin_max"`    // c21None: no max pin
+
+	// Sequence cases (time dimension): one request of key K is issued per
+	// entry; while request k is being handled (and until the next one is
+	// issued) every connection the client opens is advertised Seq[k-1] for K,
+	// and the client is made to reconnect between requests (Cause).
+	// Broker/BMin/BMax then mirror Seq[0].
+	Seq   []c21Adv `json:"sequence,omitempty"`
+	Cause string   `json:"reconnect,omitempty"` // "idle": ConnIdleTimeout(1s) reaps the connection between requests; "close": the broker closes the connection right after answering a request of key K
+}
+
+// c21Adv is what one connection advertises for K.
+type c21Adv struct {
+	Broker string `json:"broker"` // range | omitted | controller-like
+	BMin   int16  `json:"broker_min"`
+	BMax   int16  `json:"broker_max"`
+}
+
+// on returns the case as seen on a connection that was given the adv-th
+// (1-based) advertisement of the sequence.
+func (c c21Case) on(adv int) c21Case {
+	if len(c.Seq) == 0 {
+		return c
+	}
+	a := c.Seq[min(max(adv, 1), len(c.Seq))-1]
+	c.Broker, c.BMin, c.BMax = a.Broker, a.BMin, a.BMax
+	return c
 }
 
 func (c c21Case) String() string {
+	if len(c.Seq) > 0 {
+		s := fmt.Sprintf("key=%d(%s) connections advertise", c.Key, kmsg.NameForKey(c.Key))
+		for i := range c.Seq {
+			one := c.on(i + 1)
+			one.Seq = nil
+			str := one.String()
+			str = str[strings.Index(str, "broker=")+len("broker="):]
+			s += fmt.Sprintf(" #%d:%s", i+1, str[:strings.Index(str, " user=")])
+		}
+		one := c
+		one.Seq = nil
+		str := one.String()
+		return s + " reconnect-by=" + c.Cause + str[strings.Index(str, " user="):]
+	}
 	f := func(v int16) string {
 		switch v {
 		case c21None:
@@ -96,6 +136,7 @@ type c21Frame struct {
 	Ver       int16 `json:"ver"`
 	Handshake bool  `json:"handshake,omitempty"`
 	Conn      int   `json:"conn"`
+	Adv       int   `json:"advertised,omitempty"` // sequence cases, handshake frames: which element (1-based) this connection was advertised
 }
 
 // c21Broker is the scripted broker of one case.
@@ -106,6 +147,7 @@ type c21Broker struct {
 	bad    []string // byte sequences read where a request frame was expected
 	conns  []net.Conn
 	dials  int
+	epoch  int // sequence cases: 1-based index of the advertisement new connections get now
 }
 
 func (s *c21Broker) dial(_ context.Context, _, _ string) (net.Conn, error) {
@@ -163,7 +205,11 @@ func (s *c21Broker) serve(conn net.Conn, id int) {
 		corr := int32(binary.BigEndian.Uint32(buf[4:]))
 		hs := key == 18 && !handshook && s.c.Broker != c21ModePre
 		s.mu.Lock()
-		s.frames = append(s.frames, c21Frame{Key: key, Ver: ver, Handshake: hs, Conn: id})
+		adv := 0
+		if hs && len(s.c.Seq) > 0 {
+			adv = max(s.epoch, 1)
+		}
+		s.frames = append(s.frames, c21Frame{Key: key, Ver: ver, Handshake: hs, Conn: id, Adv: adv})
 		s.mu.Unlock()
 		var out []byte
 		switch {
@@ -171,7 +217,7 @@ func (s *c21Broker) serve(conn net.Conn, id int) {
 			out = s.unsupportedApiVersions(corr) // still in the handshake phase
 		case hs:
 			handshook = true
-			out = s.apiVersions(ver, corr)
+			out = s.apiVersions(ver, corr, adv)
 		case key == 18 && s.c.Broker == c21ModePre:
 			return // a pre-0.10 broker does not know ApiVersions: it drops the connection
 		default:
@@ -182,6 +228,9 @@ func (s *c21Broker) serve(conn net.Conn, id int) {
 		}
 		if _, err := conn.Write(out); err != nil {
 			return
+		}
+		if !hs && key == s.c.Key && s.c.Cause == "close" {
+			return // sequence case: the broker goes away after answering
 		}
 	}
 }
@@ -206,7 +255,8 @@ var c21AllKeys = func() []int16 {
 	return ks
 }()
 
-func (s *c21Broker) apiVersions(ver int16, corr int32) []byte {
+func (s *c21Broker) apiVersions(ver int16, corr int32, adv int) []byte {
+	s = &c21Broker{c: s.c.on(adv)} // what this connection is advertised (sequence cases)
 	resp := kmsg.NewPtrApiVersionsResponse()
 	if ver > resp.MaxVersion() {
 		ver = resp.MaxVersion()
@@ -283,6 +333,12 @@ type c21Obs struct {
 	NewErr   string     `json:"new_err"`  // NewClient error (infrastructure)
 	RespKind string     `json:"resp"`     // type of the response value
 	RespVer  int16      `json:"resp_ver"` // version of the response value
+
+	KConn    int      `json:"k_conn,omitempty"`    // connection the first frame of key K was read on
+	KAdv     int      `json:"k_adv,omitempty"`     // ... and which element of the sequence that connection had been advertised
+	LastConn int      `json:"last_conn,omitempty"` // newest connection that had been sent an advertisement when the step ended
+	LastAdv  int      `json:"last_adv,omitempty"`  // ... and which element it was advertised
+	Steps    []c21Obs `json:"steps,omitempty"`     // sequence cases: one observation per request
 }
 
 // kversion.Stable() rebuilds every release table on each call (~0.3 ms); the
@@ -368,6 +424,14 @@ func c21Run(t *testing.T, c c21Case) (o c21Obs) {
 			RequestTimeoutOverhead(time.Second),
 			RequestRetries(0),
 		}
+		if c.Cause == "idle" {
+			opts = append(opts, ConnIdleTimeout(time.Second))
+		}
+		if len(c.Seq) > 0 {
+			// no KIP-714 telemetry requests: they would open connections of
+			// their own in between
+			opts = append(opts, DisableClientMetrics())
+		}
 		if vs := c21UserMaxVersions(c); vs != nil {
 			opts = append(opts, MaxVersions(vs))
 		}
@@ -393,48 +457,78 @@ func c21Run(t *testing.T, c c21Case) (o c21Obs) {
 			}
 			ctx = context.WithValue(ctx, ctxPinReq, pin)
 		}
-		req := kmsg.RequestForKey(c.Key)
 
-		type result struct {
-			resp kmsg.Response
-			err  error
-		}
-		done := make(chan result, 1)
-		go func() {
-			resp, err := cl.SeedBrokers()[0].Request(ctx, req)
-			done <- result{resp, err}
-		}()
-		select {
-		case r := <-done:
-			if r.err != nil {
-				o.Err = r.err.Error()
+		// one request (static cases) or one request per advertised
+		// connection (sequence cases)
+		steps := max(1, len(c.Seq))
+		for j := 0; j < steps; j++ {
+			so := c21Obs{Ver: -1}
+			srv.mu.Lock()
+			from, fromBad := len(srv.frames), len(srv.bad)
+			srv.epoch = j + 1 // the broker changes what it advertises exactly here
+			srv.mu.Unlock()
+			req := kmsg.RequestForKey(c.Key)
+			type result struct {
+				resp kmsg.Response
+				err  error
 			}
-			o.Class = c21ErrClass(r.err)
-			if r.resp != nil {
-				o.RespKind = fmt.Sprintf("%T", r.resp)
-				o.RespVer = r.resp.GetVersion()
-			}
-		case <-time.After(time.Minute):
-			o.Hang = true
-			o.Class = "hang"
-			cancel()
-		}
-		// Let virtual time pass so that a request written late (or by a
-		// retry) would still be observed.
-		time.Sleep(3 * time.Second)
-		synctest.Wait()
-
-		srv.mu.Lock()
-		o.Frames = append([]c21Frame(nil), srv.frames...)
-		o.Bad = append([]string(nil), srv.bad...)
-		o.Dials = srv.dials
-		srv.mu.Unlock()
-		for _, f := range o.Frames {
-			if f.Key == c.Key && !f.Handshake {
-				if o.NK == 0 {
-					o.Ver = f.Ver
+			done := make(chan result, 1)
+			go func() {
+				resp, err := cl.SeedBrokers()[0].Request(ctx, req)
+				done <- result{resp, err}
+			}()
+			select {
+			case r := <-done:
+				if r.err != nil {
+					so.Err = r.err.Error()
 				}
-				o.NK++
+				so.Class = c21ErrClass(r.err)
+				if r.resp != nil {
+					so.RespKind = fmt.Sprintf("%T", r.resp)
+					so.RespVer = r.resp.GetVersion()
+				}
+			case <-time.After(time.Minute):
+				so.Hang = true
+				so.Class = "hang"
+				cancel()
+			}
+			// Let virtual time pass so that a request written late (or by a
+			// retry) would still be observed. In sequence cases this is
+			// also when the connection goes away: reaped as idle
+			// (ConnIdleTimeout 1s) or already closed by the broker.
+			time.Sleep(3 * time.Second)
+			synctest.Wait()
+
+			srv.mu.Lock()
+			so.Frames = append([]c21Frame(nil), srv.frames[from:]...)
+			so.Bad = append([]string(nil), srv.bad[fromBad:]...)
+			so.Dials = srv.dials
+			advOf := map[int]int{}
+			for _, f := range srv.frames {
+				if f.Handshake {
+					so.LastConn, so.LastAdv = f.Conn, f.Adv // newest connection that got an advertisement
+					advOf[f.Conn] = f.Adv
+				}
+			}
+			srv.mu.Unlock()
+			for _, f := range so.Frames {
+				if f.Key == c.Key && !f.Handshake {
+					if so.NK == 0 {
+						so.Ver, so.KConn, so.KAdv = f.Ver, f.Conn, advOf[f.Conn]
+					}
+					so.NK++
+				}
+			}
+			if len(c.Seq) == 0 {
+				o = so
+				break
+			}
+			o.Steps = append(o.Steps, so)
+			o.Frames = append(o.Frames, so.Frames...)
+			o.Dials = so.Dials
+			if so.Hang {
+				o.Hang = true
+				break
 			}
 		}
 	})
@@ -533,6 +627,28 @@ type c21Verdict struct{ cls, what string }
 // c21Judge returns the violations of one execution (none = held): at most one
 // about the ApiVersions handshake and one about the request of key K.
 func c21Judge(c c21Case, o c21Obs) (vs []c21Verdict) {
+	if len(c.Seq) > 0 {
+		// Sequence case: every request is judged with the same oracle
+		// against what the CURRENT connection advertises: the connection
+		// its frame was read on or, if nothing was written, the newest
+		// connection the client had been given an advertisement on.
+		for j, so := range o.Steps {
+			conn, adv := so.KConn, so.KAdv
+			if so.NK == 0 {
+				conn, adv = so.LastConn, so.LastAdv
+			}
+			cj := c.on(adv)
+			cj.Seq, cj.Cause = nil, ""
+			for _, v := range c21Judge(cj, so) {
+				if j > 0 {
+					v.cls = "after-reconnect/" + v.cls
+				}
+				v.what = fmt.Sprintf("request %d of the sequence, judged against connection %d (advertised element #%d: %s[%d,%d]): %s", j+1, conn, max(adv, 1), cj.Broker, cj.BMin, cj.BMax, v.what)
+				vs = append(vs, v)
+			}
+		}
+		return vs
+	}
 	if o.Hang {
 		return []c21Verdict{{"hang", "the request did not return within one virtual minute"}}
 	}
@@ -647,6 +763,70 @@ type c21Job struct {
 	Broker string
 	BMin   int16
 	BMax   int16
+
+	// sequence jobs: (Broker,BMin,BMax) is the first connection's
+	// advertisement; the cases are the later advertisements x user bounds x pins
+	SeqLen int
+	Cause  string
+}
+
+// c21Advs is the advertisement alphabet of the sequence cases: the boundary
+// range grid plus "key absent" (alone, and together with Produce).
+func c21Advs(key int16) []c21Adv {
+	as := []c21Adv{{c21ModeOmitted, c21None, c21Unbounded}, {c21ModeController, c21None, c21Unbounded}}
+	vals := c21Vals(key, false)
+	for _, bmin := range append([]int16{c21None}, vals...) {
+		for _, bmax := range append([]int16{c21Unbounded}, vals...) {
+			as = append(as, c21Adv{c21ModeRange, bmin, bmax})
+		}
+	}
+	return as
+}
+
+// c21SeqKeys: one key per connection kind of a broker (each kind handshakes on
+// its own): Metadata and OffsetCommit (general), Produce, Fetch, JoinGroup
+// (group), CreateTopics (a TimeoutRequest: "slow" connection).
+var c21SeqKeys = []int16{3, 0, 1, 11, 8, 19}
+
+func (j c21Job) eachSeq(fn func(idx int, c c21Case) bool) {
+	max, _ := c21ClientMax(j.Key)
+	mid := max / 2
+	umins, umaxs := []int16{c21None, 0, mid, max}, []int16{c21None, 0, mid, max}
+	if j.SeqLen > 2 {
+		umins, umaxs = []int16{c21None, mid}, []int16{c21None, mid}
+	}
+	pins := []c21Pin{{c21None, c21None}, {c21None, mid}, {mid, c21None}}
+	advs := c21Advs(j.Key)
+	first := c21Adv{j.Broker, j.BMin, j.BMax}
+	idx := 0
+	seq := make([]c21Adv, j.SeqLen)
+	seq[0] = first
+	var rec func(pos int) bool
+	rec = func(pos int) bool {
+		if pos < j.SeqLen {
+			for _, a := range advs {
+				seq[pos] = a
+				if !rec(pos + 1) {
+					return false
+				}
+			}
+			return true
+		}
+		for _, umin := range umins {
+			for _, umax := range umaxs {
+				for _, p := range pins {
+					c := c21Case{Key: j.Key, Broker: first.Broker, BMin: first.BMin, BMax: first.BMax, UMin: umin, UMax: umax, PinMin: p.min, PinMax: p.max,
+						Seq: append([]c21Adv(nil), seq...), Cause: j.Cause}
+					if !fn(idx, c) {
+						return false
+					}
+					idx++
+				}
+			}
+		}
+		return true
+	}
+	rec(1)
 }
 
 func c21Vals(key int16, full bool) []int16 {
@@ -703,6 +883,10 @@ func c21Pins(key int16, full bool) []c21Pin {
 }
 
 func (j c21Job) each(fn func(idx int, c c21Case) bool) {
+	if j.SeqLen > 0 {
+		j.eachSeq(fn)
+		return
+	}
 	vals := c21Vals(j.Key, j.Full)
 	umins := append([]int16{c21None, c21Missing}, vals...)
 	umaxs := append([]int16{c21None, c21Missing}, vals...)
@@ -797,6 +981,23 @@ func c21Jobs(thorough bool) []c21Job {
 	for _, k := range boundary {
 		add(k, false)
 	}
+	// time dimension: sequences of 2 (thorough: also 3) connections of the
+	// one broker, each advertising any element of the alphabet
+	if os.Getenv("C21_KEYS") == "" || os.Getenv("C21_SEQ") != "" {
+		lens := []int{2}
+		if thorough {
+			lens = []int{2, 3}
+		}
+		for _, n := range lens {
+			for _, k := range c21SeqKeys {
+				for _, a := range c21Advs(k) {
+					for _, cause := range []string{"idle", "close"} {
+						jobs = append(jobs, c21Job{Key: k, Broker: a.Broker, BMin: a.BMin, BMax: a.BMax, SeqLen: n, Cause: cause})
+					}
+				}
+			}
+		}
+	}
 	// Longest jobs first would not matter: jobs are dealt round-robin and
 	// there are thousands of them.
 	return jobs
@@ -817,6 +1018,7 @@ type c21Result struct {
 	Frames   int64
 	Dials    int64
 	Exists   int64 // cases in which a version exists
+	SeqCases, SeqSteps, Reconnects int64 // sequence cases, their requests, requests that found a new connection
 	Outcomes map[string]int64
 	Other    map[string]int64 // texts of the errors classed err-other
 	ByKey    map[string]*c21Found
@@ -826,6 +1028,15 @@ type c21Result struct {
 }
 
 func c21WantString(c c21Case) string {
+	if len(c.Seq) > 0 {
+		var parts []string
+		for j := range c.Seq {
+			cj := c.on(j + 1)
+			cj.Seq = nil
+			parts = append(parts, fmt.Sprintf("request %d (if on connection %d): %s", j+1, j+1, c21WantString(cj)))
+		}
+		return strings.Join(parts, "; ")
+	}
 	v, ok, why := c21Expect(c)
 	if ok {
 		return fmt.Sprintf("written at v%d", v)
@@ -903,7 +1114,23 @@ func c21ChildMain(t *testing.T, spec string) int {
 			if _, ok, _ := c21Expect(c); ok {
 				res.Exists++
 			}
-			res.Outcomes[fmt.Sprintf("%d|%s|v%d", c.Key, o.Class, o.Ver)]++
+			if len(c.Seq) > 0 {
+				res.SeqCases++
+				for j, so := range o.Steps {
+					res.SeqSteps++
+					tag := "first-connection"
+					if j > 0 {
+						tag = "same-connection"
+						if so.LastConn > o.Steps[j-1].LastConn {
+							tag = "after-reconnect"
+							res.Reconnects++
+						}
+					}
+					res.Outcomes[fmt.Sprintf("%d|%s|%s|v%d", c.Key, tag, so.Class, so.Ver)]++
+				}
+			} else {
+				res.Outcomes[fmt.Sprintf("%d|%s|v%d", c.Key, o.Class, o.Ver)]++
+			}
 			if o.Class == "err-other" && (len(res.Other) < 20 || res.Other[o.Err] > 0) {
 				res.Other[o.Err]++
 			}
@@ -1004,8 +1231,13 @@ func TestVerifC21(t *testing.T) {
 		"client configuration (MaxVersions built from kversion.V0_9_0: no handshake). User min in {no option, option without K} + V; user max in {no option (default latest stable), option " +
 		"without K} + V (built from kversion.Stable()/V0_9_0() with SetMaxKeyVersion). Pins: none, max p, min p. Full grid: V = 0..max(K)+1, p = 0..max(K); boundary grid: V = " +
 		"{0, max/2, max, max+1}, p in {0, max/2, max} plus every (min p, max p') pair. Oracle: the statement transcribed (highest v <= all upper bounds and >= all lower bounds; absent " +
-		"bounds do not constrain; key omitted by the broker or unknown to the user's/default max versions => no version). distinct_nontrivial = distinct (key, outcome class of the call, " +
-		"header version seen by the broker) tuples")
+		"bounds do not constrain; key omitted by the broker or unknown to the user's/default max versions => no version). Time dimension (sequence cases): from the moment the k-th request is issued every " +
+		"connection the client opens is advertised the k-th element of a sequence of 2 (thorough: also 3) advertisements, every sequence over the alphabet {K omitted, K and Produce omitted} + boundary ranges (27 " +
+		"elements), one request of key K per element, the client forced to reconnect in between either by ConnIdleTimeout(1s) in virtual time or by the broker closing the connection " +
+		"right after its answer; keys Metadata, OffsetCommit (general connection), Produce, Fetch, JoinGroup, CreateTopics (the produce/fetch/group/slow connections, each with its own " +
+		"handshake); user min/max in {none,0,max/2,max}^2 (length 3: {none,max/2}^2), pins {none, max max/2, min max/2}; same oracle, evaluated against what the CURRENT connection " +
+		"advertises (the connection the frame was read on; if nothing was written, the newest connection that had been given an advertisement). distinct_nontrivial = distinct (key, " +
+		"[sequence position kind,] outcome class of the call, header version seen by the broker) tuples")
 	r.Assume("kmsg's Request.MaxVersion() is the client's supported maximum for a key",
 		"the ApiVersions handshake itself (first ApiVersions request of a connection) cannot know the broker's range: it is judged only against the client's and the user's maximum for key 18",
 		"the scripted broker answers every request with the default (empty) kmsg response of the same key and version; SASL is not configured",
@@ -1097,6 +1329,9 @@ func TestVerifC21(t *testing.T) {
 		total.Frames += res.Frames
 		total.Dials += res.Dials
 		total.Exists += res.Exists
+		total.SeqCases += res.SeqCases
+		total.SeqSteps += res.SeqSteps
+		total.Reconnects += res.Reconnects
 		for k, n := range res.Outcomes {
 			total.Outcomes[k] += n
 		}
@@ -1140,6 +1375,10 @@ func TestVerifC21(t *testing.T) {
 	r.Set("class_version_tuples", tl)
 	r.Set("cases_where_a_version_exists", total.Exists)
 	r.Set("cases_where_no_version_exists", total.Cases-total.Exists)
+	r.Set("sequence_cases", total.SeqCases)
+	r.Set("sequence_requests", total.SeqSteps)
+	r.Set("sequence_requests_that_found_a_new_connection", total.Reconnects)
+	r.Set("sequence_keys", c21SeqKeys)
 	r.Set("connections_opened", total.Dials)
 	r.Set("error_texts_classed_err-other", total.Other)
 	r.Set("jobs", len(jobs))
